@@ -8,10 +8,10 @@ CONSTANTS
   L0Stall = 2
   L0Trigger = 1
   NCompactors = 2
-  WithClose = TRUE
-  WithDrop = FALSE
+  WithClose = FALSE
+  WithDrop = TRUE
   AtomicSend = FALSE
-  DropReads = FALSE
-  SerialCloseDrop = FALSE
+  DropReads = TRUE
+  SerialCloseDrop = TRUE
 INVARIANTS TypeOK NoPanic
-PROPERTIES CloseCompletes
+PROPERTIES CommitsReturn DropCompletes
